@@ -688,6 +688,25 @@ def phase_model(ctx, n_lru):
         if got != want:
             ctx.mismatch("Process.nsmapOf vs Survey.get_nsmap (order and values of the namespace map)", {"tokens": toks}, want, got)
         ctx.count("model:nsmap_cases")
+    # (g) clean_text_values: rows read by the conversion == rows left in the caller's dict; and cleaning them again
+    from pyxform.xls2json import clean_text_values
+
+    atoms = ["a", "b", " ", "  ", "\t", "’", "‘", "“", "”", "'", '"', "x y", "\u00a0", "é", "1", "\n"]
+    for _ in range(max(30, n_lru // 3)):
+        strip, add_row = rng.random() < 0.5, rng.random() < 0.5
+        rows = [{k: "".join(rng.choice(atoms) for _ in range(rng.randint(0, 6))) for k in rng.sample(["name", "label", "hint", "x"], k=rng.randint(1, 4))}
+                for _ in range(rng.randint(1, 3))]
+        arg = [[[k, v] for k, v in r.items()] for r in rows]
+        mine = copy.deepcopy(rows)
+        once = [[[k, v] for k, v in r.items()] for r in clean_text_values("choices", mine, strip_whitespace=strip, add_row_number=add_row)]
+        got = drv.call("proc.cleanSheet", rows=arg, strip=strip, addRow=add_row)
+        if got != once:
+            ctx.mismatch("Process.cleanSheet vs xls2json.clean_text_values (cells and __row position)", {"rows": arg, "strip": strip}, once, got)
+        twice = [[[k, v] for k, v in r.items()] for r in clean_text_values("choices", mine, strip_whitespace=strip, add_row_number=add_row)]
+        if twice != once:
+            ctx.fail(Failure("same-object-clean", f"clean_text_values is not idempotent on {arg!r} (strip_whitespace={strip}): {once!r} then {twice!r}",
+                             {"kind": "same-object-clean", "rows": arg, "strip": strip, "add_row": add_row}))
+        ctx.count("model:clean_sheet_cases")
     # (f) itemsets.csv header without external_choices_header
     import csv
     import io
@@ -827,6 +846,14 @@ def replay(ctx, payload, bs):
             phase_regen(ctx, {"form": case["form"], "feats": []}, None)
         elif kind == "same-object":
             phase_same_object(ctx, {"form": case["form"], "feats": []})
+        elif kind == "same-object-clean":
+            from pyxform.xls2json import clean_text_values
+
+            rows = [dict(r) for r in case["rows"]]
+            once = copy.deepcopy(clean_text_values("choices", rows, strip_whitespace=case["strip"], add_row_number=case["add_row"]))
+            twice = clean_text_values("choices", rows, strip_whitespace=case["strip"], add_row_number=case["add_row"])
+            if list(map(dict, twice)) != list(map(dict, once)):
+                ctx.fail(Failure("same-object-clean", "clean_text_values not idempotent", case))
         elif kind == "cache-hit":
             phase_cache_monitor(ctx, [{"form": f, "feats": []} for f in case["forms"]])
         elif kind == "tmp-left":
